@@ -326,7 +326,7 @@ class WSStream:
                 except FrameTooLargeError:
                     self.buffer.clear()
                     await self._send_wsproto_event(
-                        CloseConnection(code=CloseReason.MESSAGE_TOO_BIG)
+                        CloseConnection(code=CloseReason.MESSAGE_TOO_BIG), wait=False
                     )
                     break
 
@@ -334,11 +334,11 @@ class WSStream:
                     await self.app_put(self.buffer.to_message())
                     self.buffer.clear()
             elif isinstance(event, Ping):
-                await self._send_wsproto_event(event.response())
+                await self._send_wsproto_event(event.response(), wait=False)
             elif isinstance(event, CloseConnection):
                 self.close_code = int(event.code)
                 if self.connection.state == ConnectionState.REMOTE_CLOSING:
-                    await self._send_wsproto_event(event.response())
+                    await self._send_wsproto_event(event.response(), wait=False)
                 await self.send(StreamClosed(stream_id=self.stream_id))
 
     async def _send_error_response(self, status_code: int) -> None:
@@ -354,13 +354,13 @@ class WSStream:
             self.scope, {"status": status_code, "headers": []}, time() - self.start_time
         )
 
-    async def _send_wsproto_event(self, event: WSProtoEvent) -> None:
+    async def _send_wsproto_event(self, event: WSProtoEvent, wait: bool = True) -> None:
         try:
             data = self.connection.send(event)
         except LocalProtocolError:
             pass
         else:
-            await self.send(Data(stream_id=self.stream_id, data=data))
+            await self.send(Data(stream_id=self.stream_id, data=data, wait=wait))
 
     async def _accept(self, message: WebsocketAcceptEvent) -> None:
         status_code, headers, self.connection = self.handshake.accept(
